@@ -46,6 +46,21 @@ func rtSchedules(c *Ctx, p *rtProgram, k int, base TASpec) []*TASpec {
 		if s.TimeoutS == 0 {
 			s.TimeoutS = 30
 		}
+		s.Echo = p.Echo
+		sp := s
+		specs = append(specs, &sp)
+	}
+	// directed schedules of a program family: the named jobs finish last
+	for i, slow := range p.Slow {
+		s := base
+		s.Name = fmt.Sprintf("%s#slow%d", p.Name, i)
+		s.Src, s.MroPaths, s.Echo, s.SlowJobs = p.Src, p.MroPaths, p.Echo, slow
+		s.Seed = c.Seed*1000003 + int64(c.Rng.Intn(1<<30))
+		s.StepBias, s.StartSeparate = 0.4, 0.3
+		s.WantEvents, s.WantTrace, s.WantNodes = true, true, true
+		if s.TimeoutS == 0 {
+			s.TimeoutS = 30
+		}
 		sp := s
 		specs = append(specs, &sp)
 	}
@@ -63,7 +78,7 @@ func runCases(c *Ctx, progs []*rtProgram, perProg int, base TASpec) []*rtCase {
 	}
 	results := RunSpecs(specs, 14)
 	for i, r := range results {
-		cases[i].res = r
+		cases[i].res = confirmAlone(c, cases[i].spec, r)
 	}
 	return cases
 }
@@ -149,6 +164,17 @@ func runC02(c *Ctx) {
 		}
 	}
 	r.Histogram["family_programs"] = nfam
+	// families of sched_families.go: pass-through outputs of conditionally called pipelines under directed
+	// schedules (the producer of the condition / of the value finishes last), adversarial map key sets
+	nf := 14
+	if c.Thorough {
+		nf = 140
+	}
+	fams := append(schedPassthroughFamily(famRng, nf), schedKeysetFamily(famRng, nf/2)...)
+	fams = append(fams, schedCoMappedFamily(famRng, 8)...)
+	sfams := schedFamilyPrograms(c, fams)
+	r.Histogram["sched_family_programs"] = len(sfams)
+	progs = append(progs, sfams...)
 	cases := runCases(c, progs, 2, TASpec{})
 	replayed := 0
 	for _, cs := range cases {
@@ -287,10 +313,26 @@ func runC03(c *Ctx) {
 		n = 2500
 	}
 	progs := rtPrograms(c, n, GenOpts{})
+	// families of sched_families.go: map calls over adversarial key sets (long keys differing only in the
+	// middle, `_`-suffix / suffix pairs, escaping bytes; static and run-time maps, splitting stages, nested
+	// mapped pipelines) and pass-through outputs of conditionally called pipelines
+	nf := 16
+	if c.Thorough {
+		nf = 200
+	}
+	famRng := rand.New(rand.NewSource(c.Seed ^ 0x5c03))
+	fams := append(schedKeysetFamily(famRng, nf), schedPassthroughFamily(famRng, nf/2)...)
+	fams = append(fams, schedCoMappedFamily(famRng, 8)...)
+	sfams := schedFamilyPrograms(c, fams)
+	r.Histogram["sched_family_programs"] = len(sfams)
+	progs = append(progs, sfams...)
 	cases := runCases(c, progs, 2, TASpec{})
 	for _, cs := range cases {
 		res := cs.res
 		r.hist("final_" + finalClass(res.Final))
+		if strings.HasPrefix(cs.prog.Name, "fam:") {
+			r.hist("family_final_" + finalClass(res.Final))
+		}
 		if res.Final == "compile-error" || res.Final == "process-exit" || len(res.Events) == 0 {
 			continue
 		}
@@ -340,7 +382,21 @@ func runC03(c *Ctx) {
 				cl = cl[:i]
 			}
 			r.hist("model_end_" + cl)
-			if res.Final == "complete" && end != "finished" && end != "done" {
+			// the decidable hypotheses of failure_free_run_completes_exactly_once, evaluated by the driver on
+			// this very history: the graph is topologically numbered (⇒ Acyclic), every event is failure-free
+			for _, hyp := range []string{"topo", "ff"} {
+				v := schedHypNote(detail, hyp)
+				r.hist("hyp_" + hyp + "_" + v)
+				if v == "no" && res.Final == "complete" {
+					// (a run that did not complete — a known runtime defect reported above — is not a
+					// failure-free history: mrp itself wrote an error)
+					r.violate(Violation{Kind: "correspondence", Key: "C03:hypothesis-fails-on-real-run:" + hyp,
+						What:   "a hypothesis of failure_free_run_completes_exactly_once (" + hyp + ") does not hold on the history of a real failure-free run: " + detail,
+						Input:  map[string]interface{}{"program": src, "spec": cs.spec.Name, "seed": cs.spec.Seed, "trace": res.Trace},
+						Broken: "hypotheses of Props.C03.failure_free_run_completes_exactly_once hold on real failure-free runs"})
+				}
+			}
+			if res.Final == "complete" && end != "finished" {
 				r.violate(Violation{Kind: "correspondence", Key: "C03:model-not-finished:" + cl,
 					What:   "the real pipestance completed but the model's end state is not finished: " + detail,
 					Input:  map[string]interface{}{"program": src, "spec": cs.spec.Name, "seed": cs.spec.Seed, "trace": res.Trace},
